@@ -138,6 +138,7 @@ fn write_explicit_modular(w: &mut BitWriter, rng: &mut Rng, channels: &[Vec<i32>
     for ctx in [1u32, 2, 3, 4, 5] {
         tree_coder.write_value(w, ctx, 0);
     }
+    tree_coder.end_session(w);
     let coder = Coder::random(rng, 1, maxv, false);
     coder.write_header(w);
     for ch in channels {
@@ -145,6 +146,7 @@ fn write_explicit_modular(w: &mut BitWriter, rng: &mut Rng, channels: &[Vec<i32>
             coder.write_value(w, 0, pack_signed(*v));
         }
     }
+    coder.end_session(w);
 }
 
 pub struct LfGroupGeom {
@@ -221,6 +223,8 @@ impl Program {
             configs: vec![config],
             codes: vec![code],
             max_value: maxv,
+            ans: None,
+            pending: Default::default(),
         };
         for _ in 0..num_passes {
             w.u32([(0x5f, 0), (0x13, 0), (0, 0), (0, 13)], 0, Some(2)); // used_orders = 0
@@ -266,5 +270,6 @@ impl Program {
                 }
             }
         }
+        coder.end_session(w);
     }
 }
